@@ -263,3 +263,26 @@ Definition go_zero_PageRequest : go_PageRequest :=
    addresses (bech32 is case-insensitive as a whole; stored addresses are in canonical lower case) ---- *)
 Definition AddrStr_len (a : go_addr) : Z := if a =? go_zero_addr then 0 else 1.
 Definition AddrStr_EqualFold (a b : go_addr) : bool := a =? b.
+
+(* ---- map[uint64]V as an association list in first-insertion order: m[k] is the zero value for an absent key;
+   m[k] = v replaces in place or appends.  Go's iteration order over a map is unspecified; a `range` over such a list
+   visits the entries in first-insertion order, and the theorems about those loops do not depend on the order. ---- *)
+Fixpoint go_map_get {V} (zero : V) (m : list (Z * V)) (k : Z) : V :=
+  match m with
+  | [] => zero
+  | (k', v) :: r => if k' =? k then v else go_map_get zero r k
+  end.
+Fixpoint go_map_set {V} (m : list (Z * V)) (k : Z) (v : V) : list (Z * V) :=
+  match m with
+  | [] => [(k, v)]
+  | (k', v') :: r => if k' =? k then (k, v) :: r else (k', v') :: go_map_set r k v
+  end.
+(* coins.IsValid(): positive amounts, well-formed denominations, each denomination once (sdk: strictly ascending by
+   denomination - the order of abstract denominations carries no meaning, the absence of duplicates does) *)
+Fixpoint denoms_distinct (cs : list go_coin) : bool :=
+  match cs with
+  | [] => true
+  | c :: r => negb (existsb (fun x => fst x =? fst c) r) && denoms_distinct r
+  end.
+Definition Coins_IsValid (cs : list go_coin) : bool :=
+  forallb (fun c => (0 <? snd c) && (0 <=? fst c)) cs && denoms_distinct cs.
